@@ -1,7 +1,7 @@
 """C09 — the .ui is well-formed, grammar-conformant XML that preserves strings."""
 import json
 
-from .. import common, doccheck, strings, uiparse
+from .. import regen, common, doccheck, strings, uiparse
 from ..gen_doc import DocGen
 
 
@@ -226,8 +226,14 @@ def run(tier, seed, replay=None):
     v.assumptions = ["expat (xml.parsers.expat) as independent XML 1.0 parser",
                      "grammar table qv/uiparse.py transcribed from Qt's ui4.xsd, restricted to what qmluic can emit",
                      "for strings holding characters XML 1.0 cannot carry only well-formedness-or-rejection is asserted"]
+    # a string edited into another one of the same encoded length, generated over the previous outputs
+    _w = regen.HEAD + "QWidget {\n    windowTitle: %s\n    QLabel { text: %s }\n}\n"
+    n_hist = 0 if replay else regen.regenerated_equals_fresh(v, "c09hist", [
+        (_w % ('"a<b"', '"x"'), _w % ('"a>b"', '"x"')), (_w % ('"one"', 'qsTr("two")'), _w % ('"two"', 'qsTr("one")')),
+        (_w % ('"a\\tb"', '"é"'), _w % ('"a\\nb"', '"è"')), (_w % ('"long long text"', '"x"'), _w % ('"short"', '"x"')),
+    ], "stale-string-after-edit", "a string edited")
     return v.finish(
-        evaluations=total, distinct_nontrivial=len(distinct),
+        histories_on_disk=n_hist, evaluations=total, distinct_nontrivial=len(distinct),
         rule="documents with hostile strings (markup, quotes, blanks, line breaks, CR, non-ASCII, astral; a flagged fifth with "
              "characters XML 1.0 cannot carry) in every string-bearing position; distinct = distinct (pool, string, binding path)",
         samples=samples, accepted=n_acc, rejected=n_rej, rejected_reasons=rejected_msgs, strings_read_back=n_strings, cli_forms_reparsed_over_reruns=n_cli_forms,
